@@ -2,7 +2,7 @@
    ExtrOcamlBasic only: Z, positive, Q stay the extracted inductive types. *)
 From Coq Require Extraction.
 From Coq Require Import ExtrOcamlBasic.
-From Clip Require Import Base.Int64 Model.Arith Base.Geom Cert.Region Cert.RectLine Cert.Instances Model.Trim Model.Measures Model.Simplify Model.SimplifyF64 Model.Exports.
+From Clip Require Import Base.Int64 Model.Arith Base.Geom Cert.Region Cert.RectLine Cert.Line Cert.Instances Model.Trim Model.Measures Model.Simplify Model.SimplifyF64 Model.Exports.
 From Coq Require Import ZArith QArith.
 Extraction Blacklist String List Nat.
 Extraction "clipmodel.ml"
@@ -11,4 +11,4 @@ Extraction "clipmodel.ml"
   gen_check gen_diag Qred trim_faithful trim_exact mink_model
   Area64_twice IsPositive64_model shoelace2 GetBounds64_model getBounds_model StripDuplicates_model pip_model pip_spec cross_exact
   SimplifyPath64_model SimplifyPathD_model simplify_exact perp_f64
-  rectlines_check rectline_check verts_in_rect verts_on_lines cov_intervals.
+  rectlines_check rectline_check verts_in_rect verts_on_lines cov_intervals c09_seg_check.
